@@ -19,14 +19,18 @@ import aave_lib as A
 from common import Ctx, driver_json, fmt
 
 PROPERTY = "C04"
-LEAN_MODULES = ["Proofs.C04.Aave"]
+LEAN_MODULES = ["Proofs.C04.Aave", "Proofs.C04.AaveUpdate"]
 DRIVERS = ["driver_aave"]
 RULE = ("[aave] for each operation and each rejection cause the model distinguishes, an operation is crafted in a randomly built portfolio so "
         "that exactly that precondition fails; bucket = (operation, model rejection cause, argument class)")
 TRUSTED = ["[aave] the rejected-call theorems hold for every arithmetic context"]
 ASSUMPTIONS = ["[aave] change_collateral: the health-factor evaluation itself cannot raise (coherent caches, bar data covers held tokens — C13)",
-               "[aave] update(): the closed-market rejection and the DemeterError at an exact liquidation tie (pre-d1c4970 it left the collateral seized); "
-               "other exceptions escaping the liquidation loop need malformed bar data (zero index / price) and are C12's concern"]
+               "[aave] update(): a loop of atomic _do_liquidate steps (C04_aave_do_liquidate_atomic); on a well-formed bar and state (Aave.updWF, "
+               "evaluated by the harness on the implementation's state and by the driver on the model's for every update() of this run) it "
+               "completes (C04_aave_update_completes, exact arithmetic; never a DemeterError under monotone rounding); on malformed bars "
+               "(held token without price / risk row, zero or negative price, zero index, closed market) whatever it raises before a "
+               "liquidation was recorded leaves everything intact (C04_aave_update_raise_noop) — a raise between two recorded steps leaves "
+               "the completed steps in place (counted: aave_update_raised_between_recorded_steps)"]
 
 CAUSES = {
     "supply": ["closed", "zero", "negative", "cannotCollateral", "unknown", "flagMismatch", "insufficient", "walletUnknown"],
@@ -277,6 +281,66 @@ def run_tie(ctx: Ctx, rng, reqs, meta):
     ctx.impl_traces += 1
 
 
+def run_update(ctx: Ctx, rng, reqs, meta, exact_env):
+    """`update()` at the end of a bar in which the collateral lost value — on a well-formed bar (it must complete:
+    `C04_aave_update_completes`; the hypothesis `Aave.updWF` is evaluated here and by the driver) and on malformed ones (a held token
+    without a price, a zero or negative price, a zero index, a closed market): whatever it raises before a liquidation has been recorded
+    must leave everything as it was (`C04_aave_update_raise_noop`); a raise between two recorded steps is counted."""
+    env = A.gen_env(rng, exact=exact_env)
+    m, b, actions = A.new_market(env, A.initial_wallet(rng, env))
+    for _ in range(rng.randint(3, 14)):
+        op = A.gen_op(rng, m, b, env, malformed=0.0)
+        if op["kind"] in ("read", "update"):
+            continue
+        A.apply_op(m, op)
+    if not m._supplies:
+        return
+    shock = {t.name: A.dec_digits(rng, 0.15, 0.9, 3) for t in m._supplies if rng.random() < 0.85}
+    env = A.next_env(rng, env, shock)
+    held = [k.name for k in list(m._supplies) + list(m._borrows)]
+    flaw = rng.choice(["none", "none", "none", "noPrice", "zeroPrice", "negPrice", "zeroLiqIdx", "zeroVarIdx", "closed", "noRisk"])
+    t = rng.choice(held)
+    if flaw == "noPrice":
+        env["price"] = {k: v for k, v in env["price"].items() if k != t}
+    elif flaw == "zeroPrice":
+        env["price"][t] = D(0)
+    elif flaw == "negPrice":
+        env["price"][t] = -env["price"][t]
+    elif flaw == "zeroLiqIdx":
+        env["status"][t]["liqIdx"] = D(0)
+    elif flaw == "zeroVarIdx":
+        env["status"][t]["varIdx"] = D(0)
+    elif flaw == "noRisk":
+        env["risk"] = {k: v for k, v in env["risk"].items() if k != t}
+    elif flaw == "closed":
+        env["isOpen"] = False
+    A.install_env(m, env)
+    for _ in range(rng.choice([0, 0, 1, 2])):
+        A.apply_op(m, {"kind": "read", "view": rng.choice(A.VIEWS0)})      # warm caches: must not matter
+    op = {"kind": "update"}
+    s0 = A.dump_state(m, b, actions, len(actions))
+    n0 = len(actions)
+    before = snapshot(m, b, actions, env["tokens"])
+    outcome, _ = A.apply_op(m, op)
+    after = snapshot(m, b, actions, env["tokens"])
+    s1 = A.dump_state(m, b, actions, n0)
+    case = {"env": A.env_json(env), "state": s0, "op": op}
+    wf = A.upd_wf(env, s0)
+    nliq = sum(1 for a in s1["actions"] if a["kind"] == "liquidation")
+    ctx.count("aave_update_on_well_formed_state" if wf else f"aave_update_on_malformed_state:{flaw}")
+    if wf and env.get("isOpen", True) and outcome != "ok":
+        ctx.violate(f"aave.update:raises-on-well-formed-state:{outcome}",
+                    f"update() raised {outcome} on an open market although the bar and the positions are well formed", case)
+    if outcome != "ok":
+        if nliq == 0:
+            check_reject(ctx, before, after, op, outcome, case)
+        else:
+            ctx.count("aave_update_raised_between_recorded_steps")
+    reqs.append(A.step_request(env, s0, op))
+    meta.append((case, outcome, s1, "update", f"{flaw}:liq{min(nliq, 2)}:{'wf' if wf else 'malformed'}", wf))
+    ctx.impl_traces += 1
+
+
 def run(ctx: Ctx):
     rng = ctx.rng
     nseq = ctx.scale(70, 2800)
@@ -285,15 +349,25 @@ def run(ctx: Ctx):
         run_sequence(ctx, rng, reqs, meta, exact_env=(i % 3 == 1))
     for i in range(ctx.scale(10, 200)):
         run_tie(ctx, rng, reqs, meta)
+    for i in range(ctx.scale(120, 3000)):
+        run_update(ctx, rng, reqs, meta, exact_env=(i % 3 == 1))
     if ctx.driver_ok:
         outs = driver_json(reqs, exe=A.EXE)
-        for (case, outcome, s1, kind, cause), o in zip(meta, outs):
+        for mt, o in zip(meta, outs):
+            case, outcome, s1, kind, cause = mt[:5]
             op = case["op"]
             if "error" in o:
                 ctx.disagree(f"[aave] driver error {o['error']}", case)
                 continue
-            ctx.case(f"aave:{op.get('view', kind)}:{o['tag']}:{A.arg_class(op)}", {"op": op, "outcome": outcome, "aimed_at": cause})
-            if o["tag"] == "ok":
+            if len(mt) > 5:
+                # the update() stream: the bucket is (flaw of the bar, liquidations recorded, well-formedness), and the model must
+                # evaluate the hypothesis `Aave.updWF` as the harness did on the implementation's state
+                ctx.case(f"aave:update:{o['tag']}:{cause}", {"op": op, "outcome": outcome, "aimed_at": cause})
+                if o.get("wf") != mt[5]:
+                    ctx.disagree(f"[aave] {op}: well-formedness (Aave.updWF) impl-side {mt[5]} model {o.get('wf')}", case)
+            else:
+                ctx.case(f"aave:{op.get('view', kind)}:{o['tag']}:{A.arg_class(op)}", {"op": op, "outcome": outcome, "aimed_at": cause})
+            if o["tag"] == "ok" and len(mt) == 5:
                 ctx.count(f"aave_crafted_but_accepted:{kind}:{cause}")
             if o["outcome"] != outcome:
                 ctx.disagree(f"[aave] {op}: impl {outcome} model {o['outcome']}/{o['tag']}", case)
@@ -302,7 +376,8 @@ def run(ctx: Ctx):
             if d:
                 ctx.disagree(f"[aave] {op} ({outcome}/{o['tag']}): state after differs at {d[:300]}", case)
     else:
-        for case, outcome, _, kind, cause in meta:
+        for mt in meta:
+            case, outcome, _, kind, cause = mt[:5]
             ctx.case(f"aave:{kind}:{outcome}:{cause}")
 
 
@@ -315,6 +390,12 @@ def replay(ctx: Ctx, case) -> bool:
     outcome, _ = A.apply_op(m, case["op"], env)
     after = snapshot(m, b, actions, env["tokens"])
     sub = Ctx(ctx.prop, ctx.tier, ctx.seed, False)
+    if case["op"]["kind"] == "update":
+        if env.get("isOpen", True) and outcome != "ok" and A.upd_wf(env, case["state"]):
+            print(f"   update() raised {outcome} on a well-formed bar and state")
+            return False
+        if outcome != "ok" and len(after["actions"]) > len(before["actions"]):
+            return True       # raised between two recorded liquidation steps: the steps before the raise stand
     check_reject(sub, before, after, case["op"], outcome, case)
     for v in sub.violations:
         print("  ", v["key"], v["what"])
